@@ -482,7 +482,9 @@ func faultHistories(u *uni.U, gen *wh.CPGen, la, lb wh.LogCfg) []faultHistory {
 		return wh.Req{LogID: l.ID(), Old: uint64(old), CP: cp, Proof: p, Meta: meta, Label: label}
 	}
 	up := func(r wh.Req) faultOp { return faultOp{Req: r, Label: r.Label} }
-	rd := func(l wh.LogCfg) faultOp { return faultOp{Read: true, Req: wh.Req{LogID: l.ID()}, Label: "read " + l.Origin} }
+	rd := func(l wh.LogCfg) faultOp {
+		return faultOp{Read: true, Req: wh.Req{LogID: l.ID()}, Label: "read " + l.Origin}
+	}
 	tofuA := req(la, m, 0, 4, 0, "first use A main@4")
 	return []faultHistory{
 		{Name: "first-use", Ops: []faultOp{up(tofuA), rd(la), up(req(la, m, 4, 6, 4, "growth A 4->6"))}},
